@@ -63,8 +63,9 @@ def gen_instances(rng, n, kind="plain"):
     for i in range(n):
         r = rng.fork()
         if kind == "plain":
-            m = i % 4
-            if m == 0: I = gen_layered(r, nvars=r.range(3, 6), per_layer=r.range(2, 5), dom_max=r.range(1, 3))
+            m = i % 5
+            if m == 4: I = gen_relaxed_improves(r)     # the relaxed diagram of the root improves the incumbent while being inexact
+            elif m == 0: I = gen_layered(r, nvars=r.range(3, 6), per_layer=r.range(2, 5), dom_max=r.range(1, 3))
             elif m == 1 and i % 8 == 1: I = gen_layered(r, nvars=r.range(4, 6), per_layer=2, dom_max=3)            # heavy re-convergence
             elif m == 1: I = gen_chain(r, nvars=r.range(4, 7), per_layer=r.range(3, 5), dom_max=r.range(1, 3))  # chain relaxation (merge result = real state, recycling)
             elif m == 2: I = gen_layered(r, nvars=r.range(2, 4), per_layer=r.range(1, 3), dom_max=2, cost_lo=-6, cost_hi=0)  # negative optimum
